@@ -154,10 +154,17 @@ def cubic_spline(
     input_right_cumwidths = cumwidths.gather(-1, bin_idx + 1)[..., 0]
 
     if inverse:
-        # Modified coefficients for solving the cubic.
-        inputs_b_ = (inputs_b / inputs_a) / 3.0
-        inputs_c_ = (inputs_c / inputs_a) / 3.0
-        inputs_d_ = (inputs_d - inputs) / inputs_a
+        # Modified coefficients for solving the cubic. Where the cubic term vanishes the closed form is
+        # not used (see the almost-quadratic case below), but dividing by zero there would still turn
+        # the gradients of the whole batch element into NaN (0 * inf in the backward pass).
+        safe_a = torch.where(
+            inputs_a.abs() <= torch.finfo(inputs_a.dtype).tiny,
+            torch.ones_like(inputs_a),
+            inputs_a,
+        )
+        inputs_b_ = (inputs_b / safe_a) / 3.0
+        inputs_c_ = (inputs_c / safe_a) / 3.0
+        inputs_d_ = (inputs_d - inputs) / safe_a
 
         delta_1 = -inputs_b_.pow(2) + inputs_c_
         delta_2 = -inputs_c_ * inputs_b_ + inputs_d_
